@@ -400,9 +400,7 @@ func (c *Commission) get(height uint64) []*Model {
 		vote.height = height
 	}
 
-	c.setToMap(height, voteBlock)
-
-	return voteBlock
+	return c.setToMapIfAbsent(height, voteBlock)
 }
 
 func (c *Commission) markDirty(height uint64) func() {
@@ -471,6 +469,20 @@ func (c *Commission) setToMap(height uint64, model []*Model) {
 	defer c.lock.Unlock()
 
 	c.list[height] = model
+}
+
+// setToMapIfAbsent caches a record that was just loaded from the tree unless another goroutine
+// (an API query running next to block execution) has loaded and cached the same record in the
+// meantime; it returns the cached object, so that every caller works on one and the same object.
+func (c *Commission) setToMapIfAbsent(height uint64, model []*Model) []*Model {
+	c.lock.Lock()
+	defer c.lock.Unlock()
+
+	if existing := c.list[height]; existing != nil {
+		return existing
+	}
+	c.list[height] = model
+	return model
 }
 
 func getPath(height uint64) []byte {
